@@ -16,6 +16,7 @@ def opJson : MOp → Json
   | .lt a => Json.mkObj [("$lt", ofJV a)]
   | .lte a => Json.mkObj [("$lte", ofJV a)]
   | .in_ a => Json.mkObj [("$in", ofJV a)]
+  | .elemMatchEq a => Json.mkObj [("$elemMatch", Json.mkObj [("$eq", ofJV a)])]
   | .not o => Json.mkObj [("$not", opJson o)]
   | .empty => Json.mkObj []
 
